@@ -278,8 +278,11 @@ Qed.
 
 (* ---------- C. one line, then the loop ---------- *)
 
-(* what the loop computes for one line: Ok out, Raise RuntimeError when the
-   utterance cannot be syllabified, or another exception *)
+(* what the loop computes for one line (the body of the try block): Ok out,
+   Raise RuntimeError when the utterance cannot be syllabified or, since fix
+   88bc4d9, when its phone separators cannot be restored (the IndexError of
+   the restoration is re-raised as RuntimeError inside the try block), or
+   another exception *)
 Definition line_result (strip_ : bool) (raw : str) : result str :=
   let utt := strip raw in
   match s_syll (sy_sep S0) with
@@ -292,16 +295,20 @@ Definition line_result (strip_ : bool) (raw : str) : result str :=
       | Ok (u, index) =>
         match syllabify_utterance S0 u strip_ with
         | Raise e => Raise e
-        | Ok sylls => restore_phone_separators S0 sylls index strip_
+        | Ok sylls =>
+          match restore_phone_separators S0 sylls index strip_ with
+          | Raise IndexError => Raise RuntimeError
+          | lr => lr
+          end
         end
       end
   end.
 
-(* the exceptions of one line, with their origin *)
-Theorem line_result_error (strip_ : bool) (raw : str) (e : exn) :
+(* the exceptions of one line, with their origin: IndexError does not leave
+   the try block any more *)
+Theorem line_result_error_no_index (strip_ : bool) (raw : str) (e : exn) :
   line_result strip_ raw = Raise e ->
-  e = RuntimeError \/ e = ValueError \/ e = IndexError \/
-  (e = TypeError /\ s_syll (sy_sep S0) = None).
+  e = RuntimeError \/ e = ValueError \/ (e = TypeError /\ s_syll (sy_sep S0) = None).
 Proof.
   unfold line_result. destruct (s_syll (sy_sep S0)) as [sy|] eqn:Hsy.
   2:{ intros [= <-]. auto. }
@@ -311,12 +318,20 @@ Proof.
   apply remove_phone_separators_index in Hr. destruct Hr as [Hidx Hdef].
   destruct (syllabify_utterance S0 u strip_) as [sylls|e2] eqn:Hu.
   2:{ intros [= <-]. apply syllabify_utterance_error in Hu. destruct Hu as [-> | [-> _]]; auto. }
-  intros H. apply restore_phone_separators_error in H; [|exact Hidx].
-  destruct H as [-> | (-> & Hne & Hnone)]; [auto|]. exfalso.
+  destruct (restore_phone_separators S0 sylls index strip_) as [o|e3] eqn:Hre; [discriminate|].
+  apply restore_phone_separators_error in Hre; [|exact Hidx].
+  destruct Hre as [-> | (-> & Hne & Hnone)]; [intros [= <-]; auto|]. intros _. exfalso.
   destruct (Hdef Hne) as [Hp Hw].
-  assert (Hw' : s_word (sy_sep S0) <> None).
-  { exact Hw. }
   destruct Hnone as [H | [H | H]]; congruence.
+Qed.
+
+(* the weaker statement that held before fix 88bc4d9 (IndexError could escape) *)
+Theorem line_result_error (strip_ : bool) (raw : str) (e : exn) :
+  line_result strip_ raw = Raise e ->
+  e = RuntimeError \/ e = ValueError \/ e = IndexError \/
+  (e = TypeError /\ s_syll (sy_sep S0) = None).
+Proof.
+  intros H. apply line_result_error_no_index in H. destruct H as [H | [H | H]]; auto.
 Qed.
 
 Definition loop_step (tolerant : bool) (lr : result str) (rest : list str * send) : list str * send :=
@@ -326,8 +341,9 @@ Definition loop_step (tolerant : bool) (lr : result str) (rest : list str * send
   | Raise e => ([], SError e)
   end.
 
-(* RuntimeError reaches the loop only from syllabify_utterance: the loop is a
-   fold of [loop_step] over the line results *)
+(* RuntimeError reaches the loop from syllabify_utterance or from the failed
+   restoration of the phone separators: the loop is a fold of [loop_step] over
+   the line results *)
 Theorem syllabify_loop_step (raw : str) (r : list str) (strip_ tolerant : bool) :
   syllabify_loop S0 (raw :: r) strip_ tolerant =
   loop_step tolerant (line_result strip_ raw) (syllabify_loop S0 r strip_ tolerant).
@@ -337,13 +353,47 @@ Proof.
   destruct (infix_b sy (strip raw)); [reflexivity|].
   destruct (remove_phone_separators S0 (strip raw)) as [[u index]|e1] eqn:Hr.
   2:{ apply remove_phone_separators_error in Hr. destruct Hr as [-> _]. reflexivity. }
-  apply remove_phone_separators_index in Hr. destruct Hr as [Hidx _].
+  clear Hr.
   destruct (syllabify_utterance S0 u strip_) as [sylls|e2] eqn:Hu.
   2:{ destruct e2; reflexivity. }
   destruct (restore_phone_separators S0 sylls index strip_) as [o|e3] eqn:Hre.
   - cbn [loop_step]. destruct (syllabify_loop S0 r strip_ tolerant). reflexivity.
-  - apply restore_phone_separators_error in Hre; [|exact Hidx].
-    destruct Hre as [-> | (-> & _)]; reflexivity.
+  - destruct e3; reflexivity.
+Qed.
+
+(* an utterance whose phone separators cannot be restored is treated like an unsyllabifiable one *)
+Theorem syllabify_loop_restore_error_strict (raw : str) (r : list str) (strip_ : bool)
+    (sy u : str) (index : list (list nat)) (sylls : str) :
+  s_syll (sy_sep S0) = Some sy -> infix_b sy (strip raw) = false ->
+  remove_phone_separators S0 (strip raw) = Ok (u, index) ->
+  syllabify_utterance S0 u strip_ = Ok sylls ->
+  restore_phone_separators S0 sylls index strip_ = Raise IndexError ->
+  syllabify_loop S0 (raw :: r) strip_ false = ([], SError ValueError).
+Proof.
+  intros Hsy Hinf Hrem Hu Hre. cbn [syllabify_loop]. rewrite Hsy, Hinf, Hrem, Hu, Hre. reflexivity.
+Qed.
+
+Theorem syllabify_loop_restore_error_tolerant (raw : str) (r : list str) (strip_ : bool)
+    (sy u : str) (index : list (list nat)) (sylls : str) :
+  s_syll (sy_sep S0) = Some sy -> infix_b sy (strip raw) = false ->
+  remove_phone_separators S0 (strip raw) = Ok (u, index) ->
+  syllabify_utterance S0 u strip_ = Ok sylls ->
+  restore_phone_separators S0 sylls index strip_ = Raise IndexError ->
+  syllabify_loop S0 (raw :: r) strip_ true = syllabify_loop S0 r strip_ true.
+Proof.
+  intros Hsy Hinf Hrem Hu Hre. cbn [syllabify_loop]. rewrite Hsy, Hinf, Hrem, Hu, Hre. reflexivity.
+Qed.
+
+(* in terms of [line_result]: such a line is unsyllabifiable *)
+Theorem line_result_restore_error (raw : str) (strip_ : bool)
+    (sy u : str) (index : list (list nat)) (sylls : str) :
+  s_syll (sy_sep S0) = Some sy -> infix_b sy (strip raw) = false ->
+  remove_phone_separators S0 (strip raw) = Ok (u, index) ->
+  syllabify_utterance S0 u strip_ = Ok sylls ->
+  restore_phone_separators S0 sylls index strip_ = Raise IndexError ->
+  line_result strip_ raw = Raise RuntimeError.
+Proof.
+  intros Hsy Hinf Hrem Hu Hre. unfold line_result. rewrite Hsy, Hinf, Hrem, Hu, Hre. reflexivity.
 Qed.
 
 Lemma syllabify_loop_nil (strip_ tolerant : bool) : syllabify_loop S0 [] strip_ tolerant = ([], SDone).
@@ -451,10 +501,10 @@ Proof.
     exists o. rewrite syllabify_loop_step, Hl. reflexivity.
 Qed.
 
-(* the exceptions that end the loop *)
-Theorem syllabify_loop_error : forall (text : list str) (strip_ tolerant : bool) (os : list str) (e : exn),
+(* the exceptions that end the loop: since fix 88bc4d9 IndexError is not one of them *)
+Theorem syllabify_loop_error_no_index : forall (text : list str) (strip_ tolerant : bool) (os : list str) (e : exn),
   syllabify_loop S0 text strip_ tolerant = (os, SError e) ->
-  e = ValueError \/ e = IndexError \/ (e = TypeError /\ s_syll (sy_sep S0) = None).
+  e = ValueError \/ (e = TypeError /\ s_syll (sy_sep S0) = None).
 Proof.
   induction text as [|raw r IH]; intros strip_ tolerant os e H.
   - discriminate.
@@ -462,12 +512,19 @@ Proof.
     destruct (line_result strip_ raw) as [o|e1] eqn:Hl.
     + cbn [loop_step] in H. destruct (syllabify_loop S0 r strip_ tolerant) as [os' e'] eqn:Hr.
       cbn [fst snd] in H. injection H as _ ->. exact (IH _ _ _ _ Hr).
-    + apply line_result_error in Hl.
-      destruct Hl as [-> | [-> | [-> | [-> Hs]]]]; cbn [loop_step] in H.
+    + apply line_result_error_no_index in Hl.
+      destruct Hl as [-> | [-> | [-> Hs]]]; cbn [loop_step] in H.
       * destruct tolerant; [exact (IH _ _ _ _ H)|]. injection H as _ <-. auto.
       * injection H as _ <-. auto.
       * injection H as _ <-. auto.
-      * injection H as _ <-. auto.
+Qed.
+
+(* the weaker statement that held before fix 88bc4d9 *)
+Theorem syllabify_loop_error : forall (text : list str) (strip_ tolerant : bool) (os : list str) (e : exn),
+  syllabify_loop S0 text strip_ tolerant = (os, SError e) ->
+  e = ValueError \/ e = IndexError \/ (e = TypeError /\ s_syll (sy_sep S0) = None).
+Proof.
+  intros text strip_ tolerant os e H. apply syllabify_loop_error_no_index in H. destruct H as [H | H]; auto.
 Qed.
 
 End SyllLoop.
@@ -488,20 +545,37 @@ Proof.
   destruct filling; intros [= <-]; reflexivity.
 Qed.
 
-(* syllabify raises ValueError, IndexError (phone separators restored against
-   a too short index) or TypeError (syllable level undefined); never
-   RuntimeError, never OutOfFuel *)
+(* syllabify raises ValueError or TypeError (syllable level undefined); never
+   RuntimeError, never OutOfFuel and, since fix 88bc4d9, never IndexError
+   (phone separators restored against a too short index: now reported like an
+   unsyllabifiable utterance) *)
+Theorem syllabify_errors_no_index (ons vow : list str) (sep : separator) (filling : bool)
+    (text : list str) (strip_ tolerant : bool) (e : exn) :
+  syllabify ons vow sep filling text strip_ tolerant = Raise e ->
+  e = ValueError \/ (e = TypeError /\ s_syll sep = None).
+Proof.
+  unfold syllabify.
+  destruct (mk_syllabifier ons vow sep filling) as [S0|e1] eqn:Hmk; cbn [bind].
+  - destruct (syllabify_loop S0 text strip_ tolerant) as [os [|e2]] eqn:Hl; [discriminate|].
+    intros [= <-]. apply syllabify_loop_error_no_index in Hl.
+    rewrite (mk_syllabifier_sep _ _ _ _ _ Hmk) in Hl. exact Hl.
+  - intros [= <-]. apply mk_syllabifier_error in Hmk. auto.
+Qed.
+
+Corollary syllabify_never_index_error (ons vow : list str) (sep : separator)
+    (filling : bool) (text : list str) (strip_ tolerant : bool) :
+  syllabify ons vow sep filling text strip_ tolerant <> Raise IndexError.
+Proof.
+  intros H. apply syllabify_errors_no_index in H. destruct H as [H | [H _]]; discriminate.
+Qed.
+
+(* the weaker statement that held before fix 88bc4d9, kept under its name *)
 Theorem syllabify_errors (ons vow : list str) (sep : separator) (filling : bool)
     (text : list str) (strip_ tolerant : bool) (e : exn) :
   syllabify ons vow sep filling text strip_ tolerant = Raise e ->
   e = ValueError \/ e = IndexError \/ (e = TypeError /\ s_syll sep = None).
 Proof.
-  unfold syllabify.
-  destruct (mk_syllabifier ons vow sep filling) as [S0|e1] eqn:Hmk; cbn [bind].
-  - destruct (syllabify_loop S0 text strip_ tolerant) as [os [|e2]] eqn:Hl; [discriminate|].
-    intros [= <-]. apply syllabify_loop_error in Hl.
-    rewrite (mk_syllabifier_sep _ _ _ _ _ Hmk) in Hl. exact Hl.
-  - intros [= <-]. apply mk_syllabifier_error in Hmk. auto.
+  intros H. apply syllabify_errors_no_index in H. destruct H as [H | H]; auto.
 Qed.
 
 Corollary syllabify_never_runtime_error_nor_out_of_fuel (ons vow : list str) (sep : separator)
@@ -535,3 +609,21 @@ Proof.
   intros Hmk H. unfold syllabify. rewrite Hmk. cbn [bind].
   rewrite (syllabify_loop_tolerant S0 _ _ H). reflexivity.
 Qed.
+
+(* the hypotheses of syllabify_loop_restore_error_* are satisfiable: phones "ab" "a" (phone
+   separator " ", syllable ";", word "_"), onset b, vowel a: the utterance "aba" is
+   syllabified a;ba; which cuts the phone "ab"; the restoration raises IndexError, and
+   syllabify raises ValueError (strict) or drops the utterance (tolerant) *)
+Definition ex_sep : separator := {| s_phone := Some [32%N]; s_syll := Some [59%N]; s_word := Some [95%N] |}.
+Definition ex_S : syllabifier :=
+  {| onsets := [[98%N]]; vowels := [[97%N]]; symbols := [97%N; 98%N]; silent := None; sy_sep := ex_sep |}.
+Definition ex_raw : str := [97; 98; 32; 97; 32; 95]%N.
+
+Example restore_index_error_witness :
+  mk_syllabifier [[98%N]] [[97%N]] ex_sep false = Ok ex_S /\
+  remove_phone_separators ex_S (strip ex_raw) = Ok ([97; 98; 97; 95]%N, [[2; 1]]) /\
+  syllabify_utterance ex_S [97; 98; 97; 95]%N false = Ok [97; 59; 98; 97; 59; 95]%N /\
+  restore_phone_separators ex_S [97; 59; 98; 97; 59; 95]%N [[2; 1]] false = Raise IndexError /\
+  syllabify [[98%N]] [[97%N]] ex_sep false [ex_raw] false false = Raise ValueError /\
+  syllabify [[98%N]] [[97%N]] ex_sep false [ex_raw] false true = Ok [].
+Proof. repeat split; vm_compute; reflexivity. Qed.
